@@ -15,6 +15,7 @@ mod spell;
 mod engine_b;
 mod pools;
 mod transcript;
+mod hashorder;
 
 use common::Tier;
 
@@ -67,6 +68,21 @@ fn main() {
             std::process::exit(2);
         };
         std::process::exit(transcript::write_transcript(tier, &out, chunk.as_deref()));
+    }
+    if prop == "hashorder" {
+        #[cfg(purl_verif)]
+        {
+            let Some(out) = out else {
+                eprintln!("hashorder needs --out <file>");
+                std::process::exit(2);
+            };
+            std::process::exit(hashorder::run(tier, &out));
+        }
+        #[cfg(not(purl_verif))]
+        {
+            eprintln!("MACHINERY: hashorder needs a build with --cfg purl_verif");
+            std::process::exit(2);
+        }
     }
     let code = props::run(&prop, tier, seed, replay.as_deref());
     std::process::exit(code);
